@@ -98,6 +98,13 @@ impl EventSource for UdpRecvFrom<'_> {
             return io_data.fast_schedule();
         }
 
+        // the timer may have fired before the coroutine was stored, then nobody
+        // else is going to report the timeout
+        #[cfg(feature = "io_timeout")]
+        if self.timeout.is_some() {
+            io_data.check_timer_fired();
+        }
+
         #[cfg(feature = "io_cancel")]
         {
             // re-check the cancel status: a cancel that came before the coroutine
